@@ -140,11 +140,20 @@ func instrDominates(a, b ssa.Instruction) bool {
 func mustPassBefore(from ssa.Instruction, via, target func(ssa.Instruction) bool) (ssa.Instruction, bool) {
 	start := from.Block()
 	type item struct {
-		b   *ssa.BasicBlock
-		idx int
+		b    *ssa.BasicBlock
+		idx  int
+		pred *ssa.BasicBlock // block we came from (nil at the start)
 	}
-	seen := map[*ssa.BasicBlock]bool{}
-	work := []item{{start, instrIndex(from) + 1}}
+	type visitKey struct {
+		b, pred *ssa.BasicBlock
+	}
+	seen := map[visitKey]bool{}
+	startIdx := instrIndex(from) + 1
+	fn := start.Parent()
+	if fn != nil && len(fn.Blocks) > 0 && start == fn.Blocks[0] && instrIndex(from) == 0 {
+		startIdx = 0 // from the function entry: the first instruction itself counts
+	}
+	work := []item{{start, startIdx, nil}}
 	for len(work) > 0 {
 		it := work[len(work)-1]
 		work = work[:len(work)-1]
@@ -158,18 +167,99 @@ func mustPassBefore(from ssa.Instruction, via, target func(ssa.Instruction) bool
 			if target(ins) {
 				return ins, false
 			}
+			// a call of a helper that never returns ends the path
+			if cl, ok := ins.(*ssa.Call); ok && isNoReturn(cl.Call.StaticCallee()) {
+				blocked = true
+				break
+			}
 		}
 		if blocked {
 			continue
 		}
-		for _, s := range it.b.Succs {
-			if !seen[s] {
-				seen[s] = true
-				work = append(work, item{s, 0})
+		for si, s := range it.b.Succs {
+			if !edgeFeasible(it.pred, it.b, si) {
+				continue
+			}
+			k := visitKey{s, it.b}
+			if !seen[k] {
+				seen[k] = true
+				work = append(work, item{s, 0, it.b})
 			}
 		}
 	}
 	return nil, true
+}
+
+// nilFact: what the branch p -> b says about a value being nil.
+func nilFact(p, b *ssa.BasicBlock) (ssa.Value, bool, bool) {
+	if p == nil || len(p.Instrs) == 0 {
+		return nil, false, false
+	}
+	iff, ok := p.Instrs[len(p.Instrs)-1].(*ssa.If)
+	if !ok || len(p.Succs) != 2 || p.Succs[0] == p.Succs[1] {
+		return nil, false, false
+	}
+	bo, ok := iff.Cond.(*ssa.BinOp)
+	if !ok || (bo.Op != token.EQL && bo.Op != token.NEQ) {
+		return nil, false, false
+	}
+	var v ssa.Value
+	if c, ok := bo.Y.(*ssa.Const); ok && c.IsNil() {
+		v = bo.X
+	} else if c, ok := bo.X.(*ssa.Const); ok && c.IsNil() {
+		v = bo.Y
+	} else {
+		return nil, false, false
+	}
+	truth := p.Succs[0] == b
+	isNil := (bo.Op == token.EQL) == truth
+	return v, isNil, true
+}
+
+// edgeFeasible prunes the classic infeasible path of error threading: having
+// come into block b from pred on a branch that decided v ==/!= nil, and b
+// ending in a test of a phi whose incoming value on that edge is v, only the
+// consistent successor is feasible.
+func edgeFeasible(pred, b *ssa.BasicBlock, succIdx int) bool {
+	if pred == nil || len(b.Instrs) == 0 {
+		return true
+	}
+	v, isNil, ok := nilFact(pred, b)
+	if !ok {
+		return true
+	}
+	iff, ok := b.Instrs[len(b.Instrs)-1].(*ssa.If)
+	if !ok || len(b.Succs) != 2 {
+		return true
+	}
+	bo, ok := iff.Cond.(*ssa.BinOp)
+	if !ok || (bo.Op != token.EQL && bo.Op != token.NEQ) {
+		return true
+	}
+	var tested ssa.Value
+	if c, ok := bo.Y.(*ssa.Const); ok && c.IsNil() {
+		tested = bo.X
+	} else if c, ok := bo.X.(*ssa.Const); ok && c.IsNil() {
+		tested = bo.Y
+	} else {
+		return true
+	}
+	if phi, ok := tested.(*ssa.Phi); ok && phi.Block() == b {
+		pi := -1
+		for i, p := range b.Preds {
+			if p == pred {
+				pi = i
+			}
+		}
+		if pi < 0 || pi >= len(phi.Edges) || phi.Edges[pi] != v {
+			return true
+		}
+	} else if tested != v {
+		return true
+	}
+	// the test in b is decided
+	condTrue := (bo.Op == token.EQL) == isNil
+	return (succIdx == 0) == condTrue
 }
 
 func isReturn(ins ssa.Instruction) bool {
